@@ -22,14 +22,22 @@ from kopf._cogs.structs import references
 from kopf._core.engines import peering
 
 logging.disable(logging.CRITICAL)
-ENCODED = [peering.process_peering_event, peering.Peer.__init__, peering.keepalive, peering.touch, peering.clean]
+from kopf._cogs.clients import watching as _watching
+from kopf._core.engines import daemons as _daemons
+from kopf._core.reactor import orchestration as _orch, running as _running
+ENCODED = [peering.process_peering_event, peering.Peer.__init__, peering.keepalive, peering.touch, peering.clean,
+           _orch.spawn_missing_peerings, _watching.streaming_block, _daemons.daemon_killer, _running.spawn_tasks]
 META = {
     'technique': 'bounded symbolic execution of the real kopf code (CrossHair 0.0.110 + z3): exhaustive path exploration per obligation cell, counterexamples replayed concretely; plus direct z3 queries whose formulas are generated from the source AST of the real functions (vkopf/astsmt.py; the keep-alive period for every lifetime), validated against the real code on concrete vectors on every run',
     'bounds': 'H1: 2 foreign peers + optional own record; symbolic priorities, lifetimes (>=0 or missing -> 60), lastseen ages (>=0 or '
               'missing), our priority symbolic; prior toggle state symbolic. H2: lifetime symbolic >= 2 (0/1 cannot be renewed in time by '
               'construction: outside), jitter symbolic in [5,10], 3 renewals. H3: 2 operators, symbolic priorities (distinct), start '
               'offset <= 3 s, one graceful exit or kill within 8 s, lifetime in cell; H2b: request latency <= 3 s, stop within 3 s.',
-    'outside': 'lifetime <= 1; more than 3 operators; wall-clock skew between operators; the watch stream of the peering resource (C19)',
+    'outside': 'H4 (h_cluster): two WHOLE operators (real spawn_tasks + run_tasks each) on one fake cluster over the fake HTTP session: start '
+               'offset of the higher-priority one in {0, 4, 40} s, its life in {20, 70} s, graceful exit or kill, lifetime 30 s, jitter fixed to 5 '
+               '(T-concrete grids: every instant is compared with the periodic keep-alives); task ownership per operator is traced through a '
+               'context variable because kopf treats every task of the loop as its own. '
+               'Outside: lifetime <= 1; more than 3 operators; wall-clock skew between operators; the watch stream of the peering resource (C19)',
     'stubs': ['peering.patching.patch_obj -> recorder / shared peering object', 'peering.datetime, peering.iso8601 -> affine shim',
               'random.randint -> symbolic jitter'],
     'assumptions': ['all operators share one clock'],
@@ -374,6 +382,106 @@ def h_two(prio0: int, prio1: int, start1: int, exit0_at: int, kill0: bool, t0: b
     return vkopf.verdict(ok)
 
 
+# --------------------------------------------------------------------------------------------------- H4: whole operators
+def run_cluster(start_b, b_life, kill_b, lifetime=30, a_startup=0):
+    """Two WHOLE operators (real spawn_tasks + run_tasks each, vkopf.opworld) on one fake cluster: A (priority 100) from t=0,
+    B (priority 200) from start_b; B stops gracefully or is killed b_life seconds later; A is stopped at the end."""
+    from vkopf import opworld
+    loop = SymLoop()
+    cluster = opworld.Cluster(loop)
+    marks = {}
+
+    async def main():
+        a = opworld.Operator(cluster, 'A', priority=100, lifetime=lifetime, startup=a_startup)
+        b = opworld.Operator(cluster, 'B', priority=200, lifetime=lifetime)
+        ta = await a.start()
+        if start_b > 0:
+            await asyncio.sleep(start_b)
+        tb = await b.start()
+        await asyncio.sleep(b_life)
+        marks['before_end'] = (loop.time(), len(cluster.requests), len(a.log), len(b.log))
+        if kill_b:
+            b.kill()
+        else:
+            b.stop()
+        await asyncio.gather(tb, return_exceptions=True)
+        marks['b_gone'] = loop.time()
+        await asyncio.sleep(2 * lifetime + 15)
+        marks['late'] = (loop.time(), len(cluster.requests), len(a.log))
+        marks['peer_late'] = copy.deepcopy(cluster.peer.get('status') or {})
+        a.stop()
+        await asyncio.gather(ta, return_exceptions=True)
+        marks['peer_end'] = copy.deepcopy(cluster.peer.get('status') or {})
+        marks['left'] = len([t for t in asyncio.all_tasks() if t is not asyncio.current_task() and not t.done()])
+        await cancel_all_others()
+        return a, b
+    with opworld.installed():
+        a, b = loop.run(main(), max_steps=200_000)
+    return cluster, a, b, marks
+
+
+def h_cluster(sb: int, bl: int, kill_b: bool) -> bool:
+    """
+    pre: 0 <= sb <= 2 and 0 <= bl <= 1
+    post: _ == True
+    """
+    vkopf.begin_path()
+    kill_b = vkopf.pin('kill_b', kill_b)
+    lifetime = vkopf.cell('lifetime', 30)
+    start_b = vkopf.choose(sb, [0, 4, 40])            # together with A / while A handles / when A is in steady state (after a renewal)
+    b_life = vkopf.choose(bl, [20, 70])               # B ends before / after its own first renewal
+    try:
+        cluster, a, b, marks = run_cluster(start_b, b_life, kill_b, lifetime)
+    except (Deadlock, Diverged, Livelock):
+        return vkopf.verdict(False)
+    ok = True
+    t_end_b, nreq_before, na_before, nb_before = marks['before_end']
+    from vkopf.world import PLURAL as _PL
+    reqs = cluster.requests
+
+    def times(op, what):
+        return [t for w, t in op.log if w == what]
+    # 1. B (the higher priority) is the active one while it lives: its daemon runs, A's daemon has been stopped, and A neither
+    #    lists nor watches the served resource once it has been paused (a few seconds after B announced itself)
+    b_up = start_b + 3
+    if not times(b, 'daemon_enter'):
+        ok = False
+    a_enters, a_exits = times(a, 'daemon_enter'), times(a, 'daemon_exit')
+    if a_enters and a_enters[0] < b_up and not any(x <= b_up + 2 for x in a_exits):
+        ok = False                                        # A's daemon was running and was not stopped when A got paused
+    for (t, who, m, path) in reqs:
+        if who == 'A' and _PL in path and m == 'GET' and b_up + 2 < t < t_end_b:
+            ok = False                                    # a paused operator performs no list/watch
+    if any(w in ('create', 'update') for w, t in a.log if b_up + 2 < t < t_end_b):
+        ok = False                                        # ... and no change handling
+    vkopf.witness('paused_while_peer_alive')
+    # 2. after B has withdrawn (at once) or its keep-alive has expired (within a lifetime), A resumes: re-lists, daemon again
+    resumed_by = marks['b_gone'] + (lifetime + 5 if kill_b else 5)
+    a_lists_after = [t for (t, who, m, path) in reqs if who == 'A' and m == 'GET' and _PL in path and 'watch' not in path and t >= t_end_b]
+    if not a_lists_after or a_lists_after[0] > resumed_by:
+        ok = False
+    if not any(t >= t_end_b for t in a_enters):
+        ok = False
+    # 3. no handler is executed twice because of the pause: the object was created once, and nothing changed since
+    #    (two operators started at the very same instant both list the object before either has seen the other's record and
+    #    both handle it: a start-up race that no pause causes -- outside the claim, the other clauses still apply)
+    ncreate = len(times(a, 'create')) + len(times(b, 'create'))
+    if (ncreate != 1 and start_b > 0) or ncreate > 2 or times(a, 'update') or times(b, 'update'):
+        ok = False
+    # 4. records: B's is gone (withdrawn, or cleaned up by A after it expired), A's is there until A exits, then gone too
+    if 'B' in marks['peer_late'] or 'A' not in marks['peer_late']:
+        ok = False
+    if marks['peer_end']:
+        ok = False
+    if marks['left']:
+        ok = False
+    if kill_b:
+        vkopf.witness('killed')
+    else:
+        vkopf.witness('graceful')
+    return vkopf.verdict(ok)
+
+
 def smt_keepalive(cell=None, replay=None):
     """E4: the keep-alive period, from the source of `keepalive`: the statements of its loop body that compute the sleep are
     translated (random.randint(5, 10) = an arbitrary integer in that range) and z3 decides, for EVERY lifetime >= 2:
@@ -445,6 +553,8 @@ def smt_keepalive(cell=None, replay=None):
 def obligations():
     B = [False, True]
     obs = [Ob('smt_keepalive', {}, engine='smt', timeout=300)]
+    # H4: two whole operators on one fake cluster (start offset x life of the higher-priority one from small grids, per exit kind)
+    obs += split(Ob('h_cluster', {'lifetime': 30}, timeout=900, path_timeout=300, twins=['killed', 'graceful', 'paused_while_peer_alive']), kill_b=[False, True])
     obs += split(Ob('h_event', {}, timeout=900, twins=['paused', 'cleaned']), a_present=[True], b_present=[False], a_has_life=B, a_has_seen=B, own_present=B)
     obs += split(Ob('h_event', {}, timeout=900), a_present=[True], b_present=[True], a_has_life=[True], a_has_seen=[True],
                  b_has_life=[True], b_has_seen=B, own_present=[False])
